@@ -422,3 +422,54 @@ package common
 //@   loop 1
 //@     invariant len(out) == act_count(indicesBounded, epoch, rangeindex + 1) && len(out) <= rangeindex + 1
 //@     invariant forall i :: {indicesBounded[i]} 0 <= i && i <= rangeindex && is_active(indicesBounded[i], epoch) ==> act_count(indicesBounded, epoch, i) < len(out) && out[act_count(indicesBounded, epoch, i)] == indicesBounded[i].Index
+
+// ---------------------------------------------------------------- proposer sampling (C07)
+// compute_shuffled_index as an uninterpreted function here (C06 is about PermuteIndex itself)
+//@ sort Root32 = Root
+//@ sort VIdxsT = []ValidatorIndex
+//@ sort Bytes8 = [8]byte
+//@ ufun shuf_idx(int, int, int, Root32) int
+//@ ufun v_eb_err(ValI) bool
+//@ ufun v_eb(ValI) int
+
+//@ func PermuteIndex(rounds, index, listSize, seed) r
+//@   trusted
+//@   opt noalloc
+//@   ensures r == shuf_idx(rounds, index, listSize, seed)
+//@   ensures index < listSize ==> r < listSize
+
+//@ func (v Validator) EffectiveBalance() (r, err)
+//@   trusted
+//@   opt noalloc
+//@   ensures (err != nil) == v_eb_err(v)
+//@   ensures err == nil ==> r == v_eb(v)
+
+// compute_proposer_index: candidate k is active[shuffled(k mod n)], its random byte is byte (k mod 32) of
+// hash(seed ++ uint_to_bytes(k / 32)); the first candidate with
+// effective_balance * 255 >= MAX_EFFECTIVE_BALANCE * random_byte wins.
+//@ define le64(x int) Bytes8 = Bytes8(x % 256, (x / 256) % 256, (x / 65536) % 256, (x / 16777216) % 256, (x / 4294967296) % 256, (x / 1099511627776) % 256, (x / 281474976710656) % 256, (x / 72057594037927936) % 256)
+//@ define prop_rand(seed Root32, k int) int = sha256(cat(seed, le64(k / 32)))[k % 32]
+//@ define prop_cand(rounds int, active VIdxsT, seed Root32, k int) int = active[shuf_idx(rounds, k % len(active), len(active), seed)]
+// prop_accept(k): candidate number k passes the balance test (opaque, defined by the axiom below)
+//@ ufun prop_accept(int, RegI, int, VIdxsT, Root32, int) bool
+//@ axiom prop_accept_def: forall maxeb int, reg RegI, rounds int, active VIdxsT, seed Root32, k int :: {prop_accept(maxeb, reg, rounds, active, seed, k)} prop_accept(maxeb, reg, rounds, active, seed, k) == (v_eb(reg_val(reg, prop_cand(rounds, active, seed, k))) * 255 >= maxeb * prop_rand(seed, k))
+// prop_scan(k): the first acceptable candidate number at or after k (-1: none below 32000); unfolded where ktrig(k) occurs
+//@ ufun prop_scan(int, RegI, int, VIdxsT, Root32, int) int
+//@ ufun ktrig(int) bool
+//@ axiom ktrig_true: forall k :: {ktrig(k)} ktrig(k)
+//@ axiom prop_scan_def: forall maxeb int, reg RegI, rounds int, active VIdxsT, seed Root32, k int :: {prop_scan(maxeb, reg, rounds, active, seed, k), ktrig(k)} prop_scan(maxeb, reg, rounds, active, seed, k) == ite(k >= 32000 || k < 0, 0 - 1, ite(prop_accept(maxeb, reg, rounds, active, seed, k), k, prop_scan(maxeb, reg, rounds, active, seed, k + 1)))
+//@ func ComputeProposerIndex(spec, registry, active, seed) (r, err)
+//@   property C07
+//@   requires spec != nil && registry != nil
+//@   requires balances: spec.MAX_EFFECTIVE_BALANCE < 72057594037927936 && (forall v ValI :: {v_eb(v)} v_eb(v) < 72057594037927936)
+//@   ensures empty: len(active) == 0 ==> err != nil
+//@   ensures first: err == nil ==> prop_scan(spec.MAX_EFFECTIVE_BALANCE, registry, spec.SHUFFLE_ROUND_COUNT % 256, active, seed, 0) >= 0 && r == prop_cand(spec.SHUFFLE_ROUND_COUNT % 256, active, seed, prop_scan(spec.MAX_EFFECTIVE_BALANCE, registry, spec.SHUFFLE_ROUND_COUNT % 256, active, seed, 0))
+//@   loop 1
+//@     invariant 0 <= i && i <= 1000
+//@     invariant scan: prop_scan(spec.MAX_EFFECTIVE_BALANCE, registry, spec.SHUFFLE_ROUND_COUNT % 256, active, seed, 0) == prop_scan(spec.MAX_EFFECTIVE_BALANCE, registry, spec.SHUFFLE_ROUND_COUNT % 256, active, seed, 32 * i)
+//@     invariant forall b :: 0 <= b && b < 32 ==> buf[b] == seed[b]
+//@   loop 2
+//@     invariant 0 <= j && j <= 32 && 0 <= i && i < 1000 && ktrig(32 * i + j)
+//@     invariant split: j < 32 ==> (32 * i + j) / 32 == i && (32 * i + j) % 32 == j
+//@     invariant hash: h == sha256(cat(seed, le64(i)))
+//@     invariant scan: prop_scan(spec.MAX_EFFECTIVE_BALANCE, registry, spec.SHUFFLE_ROUND_COUNT % 256, active, seed, 0) == prop_scan(spec.MAX_EFFECTIVE_BALANCE, registry, spec.SHUFFLE_ROUND_COUNT % 256, active, seed, 32 * i + j)
